@@ -438,10 +438,13 @@ impl FileSpec {
                 } else {
                     fixed_name_part.len() + 1 // underscore at the end
                 };
-                if stem.len() <= infix_start {
+                // (file names can contain multi-byte characters: no slicing at arbitrary offsets)
+                if infix_start > 0 && stem.as_bytes().get(infix_start - 1) != Some(&b'_') {
                     return false;
                 }
-                let maybe_infix = &stem[infix_start..];
+                let Some(maybe_infix) = stem.get(infix_start..).filter(|s| !s.is_empty()) else {
+                    return false;
+                };
                 let end = maybe_infix.find('.').unwrap_or(maybe_infix.len());
                 infix_filter.filter_infix(&maybe_infix[..end])
             })
